@@ -218,3 +218,18 @@ func clip(s string, n int) string {
 	}
 	return s
 }
+
+// firstEmissionIsNewline: the recorded finding first-emission-newline -- the first decoration of
+// File.Decs.Start that the restorer renders (strings that are neither comments nor "\n" are not
+// rendered) is "\n", so a line break is emitted before anything else in the file.
+func firstEmissionIsNewline(f *dst.File) bool {
+	for _, d := range f.Decs.Start {
+		if d == "\n" {
+			return true
+		}
+		if strings.HasPrefix(d, "//") || strings.HasPrefix(d, "/*") {
+			return false
+		}
+	}
+	return false
+}
